@@ -1352,10 +1352,12 @@ func (p *scionPacketProcessor) validateEgressID() disposition {
 	egressLink := p.d.interfaces[egressID]
 
 	// egress interface must be a known interface
-	// egress is never the internal interface (already checked)
+	// egress is never the internal interface: a hop field with egress interface 0 that is not
+	// the last hop of a packet for this AS designates no link to forward on
 	// packet coming from internal interface, must go to an external interface
 	// Note that, for now, ingress == 0 is also true for sibling interfaces. That might change.
-	if egressLink == nil || (p.ingressFromLink == 0 && egressLink.Scope() == Sibling) {
+	if egressLink == nil || egressLink.Scope() == Internal ||
+		(p.ingressFromLink == 0 && egressLink.Scope() == Sibling) {
 		errCode := slayers.SCMPCodeUnknownHopFieldEgress
 		if !p.infoField.ConsDir {
 			errCode = slayers.SCMPCodeUnknownHopFieldIngress
